@@ -9,6 +9,7 @@ from ..charclass import S, members
 from ..core import PKG, Report
 from ..domain import (CONFIG, CONST, ENUM, IDENT, JSONREPR, NUM, PYREPR, RAW, RAW_NONSTR, REPR_OF_ESC, UNKNOWN, WORD,
                       is_esc)
+from ..astutil import Locals, local_names
 from ..pyindex import dotted
 
 ALWAYS_OK = {CONST, ENUM, NUM, IDENT, WORD, CONFIG}
@@ -191,17 +192,48 @@ def run(rep: Report, ctx: Any) -> str:
 
 
 def _norm_ctor(ix: Any, where: str) -> str:
-    """Normalised text of the Value(...) call at `where` (key material independent of line numbers)."""
+    """Key material for the Value(...) call at `where`, independent of line numbers and of how locals are spelled: the python_code
+    argument with a local that has one definition replaced by that definition (one level) and every remaining variable shown as `_`
+    - `Value(python_code=repr(esc(value)))` and `code = repr(esc(text)); Value(python_code=code)` read the same."""
+    import copy
+
     rel, _, line = where.rpartition(":")
     for m in ix.modules.values():
-        if m.rel == rel:
-            for n in ast.walk(m.tree):
-                if isinstance(n, ast.Call) and getattr(n, "lineno", -1) == int(line) and (dotted(n.func) or "").endswith("Value"):
-                    for kw in n.keywords:
-                        if kw.arg == "python_code":
-                            return ast.unparse(kw.value)
-                    if n.args:
-                        return ast.unparse(n.args[0])
+        if m.rel != rel:
+            continue
+        fns = [f for f in ast.walk(m.tree) if isinstance(f, (ast.FunctionDef, ast.AsyncFunctionDef))
+               and f.lineno <= int(line) <= (f.end_lineno or f.lineno)]
+        fn = max(fns, key=lambda f: f.lineno) if fns else None
+        for n in ast.walk(m.tree):
+            if isinstance(n, ast.Call) and getattr(n, "lineno", -1) == int(line) and (dotted(n.func) or "").endswith("Value"):
+                arg = next((kw.value for kw in n.keywords if kw.arg == "python_code"), n.args[0] if n.args else None)
+                if arg is None:
+                    continue
+                if fn is None:
+                    return ast.unparse(arg)
+                lc = Locals(fn)
+                variables = local_names(fn) | {a.arg for a in [*fn.args.posonlyargs, *fn.args.args, *fn.args.kwonlyargs]}
+                callees = {id(c.func) for c in ast.walk(arg) if isinstance(c, ast.Call)}
+
+                class Inline(ast.NodeTransformer):
+                    def visit_Name(self, x: ast.Name) -> ast.AST:
+                        vals = lc.values_of(x.id) if x.id in local_names(fn) else []
+                        return copy.deepcopy(vals[0]) if len(vals) == 1 and isinstance(vals[0], ast.expr) else x
+
+                class Blank(ast.NodeTransformer):
+                    def visit_Call(self, c: ast.Call) -> ast.AST:
+                        c.args = [self.visit(a) for a in c.args]
+                        c.keywords = [ast.keyword(arg=k.arg, value=self.visit(k.value)) for k in c.keywords]
+                        if not isinstance(c.func, ast.Name):
+                            c.func = self.visit(c.func)
+                        return c
+
+                    def visit_Name(self, x: ast.Name) -> ast.AST:
+                        return ast.Name(id="_", ctx=x.ctx) if x.id in variables else x
+
+                e = Inline().visit(copy.deepcopy(arg))
+                e = Blank().visit(e if isinstance(e, ast.AST) else arg)
+                return ast.unparse(ast.fix_missing_locations(e))
     return "?"
 
 
